@@ -36,6 +36,7 @@ package main
 //            ((k-1-10)*p - eps on the sorted times), eps = dispatch latency of one probe <= slack.
 
 import (
+	"strconv"
 	"bufio"
 	"crypto/ecdsa"
 	"crypto/elliptic"
@@ -478,6 +479,18 @@ func e2eAppComponent(r *hx.Run) {
 		if eff >= 2*time.Second {
 			slack = 2000
 		}
+		// kind "<k>/nofile<d>": the process may hold d descriptors more than the fewest it starts with (`ulimit -n`
+		// close to what the process needs anyway: socket() fails with EMFILE, for all probes or for all but d at a time)
+		var opt sxOpt
+		if k, d, ok := strings.Cut(tc.kind, "/nofile"); ok {
+			tc.kind = k
+			n, _ := strconv.Atoi(d)
+			opt.nofile = appMinNofile() + n
+		}
+		kindText := tc.kind
+		if opt.nofile > 0 {
+			kindText += fmt.Sprintf("/nofile+%d", opt.nofile-appMinNofile())
+		}
 		var tgt appTarget
 		if tc.kind == "syndrop" {
 			tgt = appTarget{ip: dropBase + loop%10, port: 1024 + int(loop%50000), beh: "drop"}
@@ -501,7 +514,7 @@ func e2eAppComponent(r *hx.Run) {
 		}
 		for try := 0; try < tries; try++ {
 			farm := newAppFarm(tc.cmd, tc.proto, tlsCfg, try, []appTarget{tgt})
-			res := runSX(nil, limit+20*time.Second, args...)
+			res := runSXOpt(opt, nil, limit+20*time.Second, args...)
 			farm.close()
 			if res.exit != 0 && !res.timedOut {
 				obs = "FAIL exit=" + fmt.Sprint(res.exit) + " " + hx.HexS(lastLine(res.stderr))
@@ -521,8 +534,8 @@ func e2eAppComponent(r *hx.Run) {
 		if tc.tMs > 0 {
 			tflag = "given"
 		}
-		return timeOut{class: fmt.Sprintf("apptime/%s/%s/%s/%s", tc.cmd, tc.proto, tc.kind, tflag),
-			fields: []string{"apptime", tc.cmd, tc.kind, tflag, fmt.Sprint(eff.Milliseconds()), fmt.Sprint(mult), fmt.Sprint(exitMs), fmt.Sprint(slack), obs}}
+		return timeOut{class: fmt.Sprintf("apptime/%s/%s/%s/%s", tc.cmd, tc.proto, kindText, tflag),
+			fields: []string{"apptime", tc.cmd, kindText, tflag, fmt.Sprint(eff.Milliseconds()), fmt.Sprint(mult), fmt.Sprint(exitMs), fmt.Sprint(slack), obs}}
 	}
 	// the long cases (CLI defaults: seconds of pure waiting) run beside everything else
 	var longCases []timeCase
@@ -574,11 +587,16 @@ func e2eAppComponent(r *hx.Run) {
 		}
 		args = append(args, appArgs(rng, nextDir(), sp)...)
 		variant := rng.Intn(8)
+		// the reader of stderr lags (a paused terminal, `2>&1 | less`): the error records are still all there in the end
+		slowErr := time.Duration(0)
+		if strings.HasSuffix(extra, "/slowerr") {
+			slowErr = 200 * time.Millisecond
+		}
 		var farm *appFarm
 		var res sxRun
 		for try := 0; try < 3; try++ {
 			farm = newAppFarm(cb.cmd, cb.proto, tlsCfg, variant, sp.targets)
-			res = runSX(nil, 60*time.Second, args...)
+			res = runSXOpt(sxOpt{slowStderr: slowErr}, nil, 60*time.Second, args...)
 			time.Sleep(10 * time.Millisecond)
 			farm.close()
 			lab.take()
@@ -736,7 +754,7 @@ func e2eAppComponent(r *hx.Run) {
 
 	// more failed probes in one second than any log sampler or the 100-slot error buffer lets through unnoticed:
 	// one address, some hundred ports, nothing listens on most of them
-	nMass := 1
+	nMass := 2
 	if thorough {
 		nMass = 6
 	}
@@ -748,6 +766,9 @@ func e2eAppComponent(r *hx.Run) {
 		sp.base = uint32(127<<24) | uint32(1+rng.Intn(200))<<16 | uint32(rng.Intn(250))<<8 | uint32(1+rng.Intn(250))
 		p0 := 20000 + rng.Intn(20000)
 		n := 250 + rng.Intn(250)
+		if i%2 == 1 {
+			n = 600 + rng.Intn(300) // some hundred kilobytes of error records
+		}
 		for p := 0; p < n; p++ {
 			sp.ports = append(sp.ports, p0+p)
 			beh := "refused"
@@ -756,21 +777,28 @@ func e2eAppComponent(r *hx.Run) {
 			}
 			sp.targets = append(sp.targets, appTarget{ip: sp.base, port: p0 + p, beh: beh})
 		}
-		runRec(cb, sp, "/mass")
+		if i%2 == 0 {
+			runRec(cb, sp, "/mass")
+		} else {
+			runRec(cb, sp, "/mass/slowerr")
+		}
 	}
 
 	// ------------------------------------------------------------ apptime, short timeouts
 	shortCases := []timeCase{{"socks", "", "syndrop", 0}, {"socks", "", "tarpit", 0}, {"elastic", "http", "tarpit", 0},
 		{"docker", "http", "tarpit", 0}, {"elastic", "https", "syndrop", 0}, {"docker", "https", "tarpit", 0}}
+	// … and with hardly any file descriptor to spare
+	shortCases = append(shortCases, timeCase{"socks", "", "tarpit/nofile0", 0}, timeCase{"socks", "", "tarpit/nofile1", 0},
+		timeCase{"elastic", "http", "tarpit/nofile0", 0}, timeCase{"docker", "http", "tarpit/nofile0", 0})
 	nShort := len(shortCases)
 	if thorough {
-		nShort = 40
+		nShort = 44
 	}
 	for i := 0; i < nShort; i++ {
 		tc := shortCases[i%len(shortCases)]
 		if i >= len(shortCases) {
 			cb := combos[rng.Intn(len(combos))]
-			tc = timeCase{cmd: cb.cmd, proto: cb.proto, kind: []string{"syndrop", "tarpit"}[rng.Intn(2)]}
+			tc = timeCase{cmd: cb.cmd, proto: cb.proto, kind: []string{"syndrop", "tarpit", "tarpit/nofile0", "syndrop/nofile1", "tarpit/nofile2"}[rng.Intn(5)]}
 		}
 		tc.tMs = 150 + 50*rng.Intn(4) // 150..300 ms: 4*T + slack stays well below the commands' defaults
 		out := runTime(tc, uint32(127<<24|251<<16)|uint32(1+rng.Intn(250))<<8|uint32(1+rng.Intn(250)))
@@ -902,4 +930,25 @@ func rngShuffleInts(rng interface{ Intn(int) int }, xs []int) {
 		j := rng.Intn(i + 1)
 		xs[i], xs[j] = xs[j], xs[i]
 	}
+}
+
+// appMinNofile: the smallest `ulimit -n` the sx process starts with at all (below it the Go runtime itself fails:
+// epoll / eventfd); found once, by trying
+var (
+	appMinNofileOnce sync.Once
+	appMinNofileN    int
+)
+
+func appMinNofile() int {
+	appMinNofileOnce.Do(func() {
+		appMinNofileN = 16
+		for n := 3; n < 16; n++ {
+			res := runSXOpt(sxOpt{nofile: n}, nil, 5*time.Second, "socks", "--json", "-t", "100ms", "--exit-delay", "10ms", "-p", "9", "127.255.255.254")
+			if res.timedOut || res.exit == 0 {
+				appMinNofileN = n
+				return
+			}
+		}
+	})
+	return appMinNofileN
 }
